@@ -430,6 +430,29 @@ def outdir(R, ctx):
     R.require(rid, "floor", n >= 1, ctx.where(fn), "%d bare-output registrations" % n)
 
 
+def walk_follows_links(R, ctx):
+    rid = "C11.walk"
+    lib = ctx.lib
+    R.rule(rid, "the enumeration of the input tree (frontend::resources) decides what each path is with link-following queries "
+                "(Path::metadata / is_file / is_dir): it never calls symlink_metadata, DirEntry::file_type or DirEntry::metadata, which "
+                "answer for the link itself -- a linked file or directory would silently drop out of the batch (no output, no error). "
+                "Zero-count rule with a positive control")
+    follow, nofollow = [], []
+    for f in lib.fn_list:
+        if not thir.body_of(f) or not norm_path(f["path"]).startswith("frontend::resources"):
+            continue
+        for c in thir.fn_refs(f):
+            cal = (callee_of(c) or "") + " " + (c.get("fn") or "")
+            name = c.get("fname")
+            if name == "symlink_metadata" or (name in ("file_type", "metadata") and "DirEntry" in cal) or (name == "read_link"):
+                nofollow.append((f, c))
+            elif name in ("metadata", "is_file", "is_dir", "exists", "try_exists") and ("std::path::Path" in cal or "std::fs::" in cal):
+                follow.append((f, c))
+    R.require(rid, "floor:link-following-queries", len(follow) >= 3, "", "%d link-following queries in frontend::resources (positive control)" % len(follow))
+    R.ob(rid, "no-link-level-queries", not nofollow, ctx.where(nofollow[0][0], nofollow[0][1].get("ln")) if nofollow else "",
+         "every query follows links" if not nofollow else "%s asks about the link itself with `%s`: what a symbolic link points to is never processed" % (norm_path(nofollow[0][0]["path"]).split("::")[-1], nofollow[0][1].get("fname")))
+
+
 def run(R, ctx):
     R.explanation = (
         "Who-may-write tables, MIR dominance/must-pass rules on the worker's write/done/flush paths, the error arm of the work loop, "
@@ -446,3 +469,4 @@ def run(R, ctx):
     outdir(R, ctx)
     shared_state(R, ctx)
     order(R, ctx)
+    walk_follows_links(R, ctx)
